@@ -330,7 +330,7 @@ fn hexes(v: &[Vec<u8>]) -> Vec<String> { v.iter().map(|x| keys::hex(x)).collect(
 impl Check for C06 {
     fn id(&self) -> &'static str { "C06" }
     fn rule(&self) -> String {
-        "case = well-typed fragment of any base type (B,V,K,W) with <= 6 nodes in a random context; the independently encoded script is run by the reference interpreter on ALL input stacks found by lazy enumeration over the type alphabet (empty, 1, 2, 0x00, valid signature per key, a well-formed invalid signature, every key, right preimages, 32 zero bytes, 33-byte junk), once with all time locks satisfied and once with all unsatisfied; the library's stored type (z,o,n,u,d,f,s,e and base shape) is checked against every non-aborting run; every run is repeated on top of two extra elements. Non-trivial = >= 2 nodes, at least one satisfaction and (if the type allows) one dissatisfaction; distinct by (context, text).".into()
+        "case = well-typed fragment of any base type (B,V,K,W) with <= 6 nodes in a random context (lane frag), or such a fragment after 1-2 random local edits -- re-wrap, un-wrap, other combinator, swapped children -- kept whenever the LIBRARY still types it (lane loose); the independently encoded script is run by the reference interpreter on ALL input stacks found by lazy enumeration over the type alphabet (empty, 1, 2, 0x00, valid signature per key, a well-formed invalid signature, every key, right preimages, 32 zero bytes, 33-byte junk), once with all time locks satisfied and once with all unsatisfied; the library's stored type (z,o,n,u,d,f,s,e and base shape) is checked against every non-aborting run; every run is repeated on top of two extra elements. Non-trivial = >= 2 nodes, at least one satisfaction and (if the type allows) one dissatisfaction; distinct by (context, text).".into()
     }
     fn assumptions(&self) -> Vec<String> {
         vec![
@@ -341,11 +341,11 @@ impl Check for C06 {
     }
     fn lanes(&self, tier: Tier) -> Vec<(&'static str, usize, usize)> {
         match tier {
-            Tier::Quick => vec![("frag", 5000, 200)],
-            Tier::Thorough => vec![("frag", 400_000, 300)],
+            Tier::Quick => vec![("frag", 12_000, 200), ("loose", 12_000, 240)],
+            Tier::Thorough => vec![("frag", 400_000, 300), ("loose", 400_000, 340)],
         }
     }
-    fn run_case(&self, _lane: &str, src: &mut Src, rep: &mut Report) -> Result<(), Failure> {
+    fn run_case(&self, lane: &str, src: &mut Src, rep: &mut Report) -> Result<(), Failure> {
         let ctx = *src.pick(&[Ctx::Segwitv0, Ctx::Tap, Ctx::Legacy, Ctx::Bare]);
         let size = src.range(1, 6);
         let mut cfg = Cfg::new(ctx, size);
@@ -355,7 +355,22 @@ impl Check for C06 {
         cfg.max_thresh_n = 3;
         let want = *src.pick(&[gen::W_B, gen::W_B, gen::W_B, gen::W_V, gen::W_K, gen::W_W]);
         let mut st = gen::State::new();
-        let node = gen::gen(src, &cfg, &mut st, want, size);
+        let mut node = gen::gen(src, &cfg, &mut st, want, size);
+        if lane == "loose" {
+            // whatever the LIBRARY types (not what the specification tables type): local edits of
+            // a typed tree; the library's claims about the result are held against execution
+            node = gen::perturb(src, &cfg, &node);
+            if node.n_nodes() > 9 {
+                return Ok(());
+            }
+            // or_i and d: rely on MINIMALIF, which pre-segwit outputs do not have: those contexts
+            // ban the two fragments (C12); the type rules are not meant to hold for them there
+            if matches!(ctx, Ctx::Bare | Ctx::Legacy) && crate::mirror::analysis::has(&node, &|x| matches!(x, Node::OrI(..) | Node::DupIf(..))) {
+                rep.class("loose:skipped-minimalif-fragment");
+                return Ok(());
+            }
+            rep.class(if crate::mirror::spec::type_of(&node, ctx).is_ok() { "loose:spec-typed" } else { "loose:spec-untyped" });
+        }
         rep.desc = format!("{:?} {}", ctx, ast::print(&node, true));
         rep.class(format!("ctx={:?}", ctx));
         if check_fragment(&node, ctx, rep)? {
